@@ -372,7 +372,8 @@ impl std::io::Read for FailingStream {
 /// @bound streams of 0-2 good bytes then a failure; 4 error kinds; every sequence of 4 peek / next operations
 /// @encodes IoRead::new, IoRead::peek, IoRead::next, LineColIterator::next, Error::io, Error::is_io
 /// @also C19
-/// @tier thorough
+/// @timeout 900
+/// @playback_enum u8=97; u8=98; u8=99; usize=0..2; u8=0..3; bool*4
 #[kani::proof]
 #[kani::unwind(6)]
 fn c06_stream_failure_surfaces() {
